@@ -207,6 +207,18 @@ class SSet(Symbolic):
         k = z3.Const(it.cx.fresh_name("k"), self.kc.sort)
         return SV(z3.Exists([k], self.has(k)), "bool")
 
+    def _binop(self, it, name, other, rev, node, inplace):
+        # s - t, s | t, s & t  (set algebra); `rev` = the symbolic set is the right operand
+        meth = {"sub": "difference", "or_": "union", "and_": "intersection", "or": "union", "and": "intersection"}.get(name)
+        if meth is None:
+            return NotImplemented
+        if rev:
+            oc = self._as_chi(it, other)
+            if oc is None:
+                return NotImplemented
+            return SSet(self.kc, oc)._getattr(it, meth, node)(it, self)
+        return self._getattr(it, meth, node)(it, other)
+
     def _as_chi(self, it, other):
         """characteristic array of another set-like value (SSet, or a native set / frozenset of values)"""
         if isinstance(other, SSet):
